@@ -85,7 +85,7 @@ inductive Op where
   | litAddDecoded (cs : List Char)
   | payClear
   -- main loop / finalisation
-  | loopCheck
+  | loopProbe
   | emitEofAtCursor
   -- debug assertion in the control logic
   | dassert (cond : Bool) (msg : String)
@@ -109,7 +109,7 @@ inductive Op where
   | .advance => Option Char
   | .mode => Mode
   | .popModeRaw => Option Mode
-  | .loopCheck => Bool
+  | .loopProbe => Nat × List Mode
   | .pendingStat => Bool
   | .modifyAt _ _ => Bool
   | .retypeLastDefault _ _ => Bool
@@ -263,10 +263,9 @@ def step (cfg : Cfg) : (o : Op) → Lexer → Resp o × Lexer
       let ((a, b), L) := L.addStringLiteral cs
       ((), { L with payReg := .str a b })
   | .payClear, L => ((), { L with payReg := .none })
-  | .loopCheck, L =>
-      -- debug-only loop detector of `lex`: `(remaining_len, mode_stack)` unchanged?
-      let st := (L.cur.remBytes, L.modesR)
-      if L.lastState == st then (true, L) else (false, { L with lastState := st })
+  | .loopProbe, L =>
+      -- what the debug-only loop detector of `lex` compares: `(remaining_len, mode_stack)`
+      ((L.cur.remBytes, L.modesR), L)
   | .emitEofAtCursor, L =>
       let (ln, L) := L.lastLineOrAdd cfg
       ((), L.bufAddToken cfg ⟨.DEFAULT, .EOF, L.curByte, L.curChar, ln, .none⟩)
